@@ -85,6 +85,8 @@ def build_learner(spec):
         return K.PMFLearner(**kw)
     if kind == "kwargs":
         return K.KwargsLearner(**kw)
+    if kind == "lowbits":
+        return K.LowBitsLearner(**kw)
     if kind == "faulty":
         return K.FaultyLearner(**kw)
     if kind == "recording":
@@ -124,6 +126,9 @@ def build_experiment(spec):
     envs = []
     for g in spec["envs"]:
         envs.extend(build_envs(g))
+    for name, a in spec.get("joint_ops", []):
+        # one call on the Environments object that holds ALL groups: every pipeline receives the same filter object
+        envs = list(getattr(cb.Environments(envs), name)(**a))
     lrns = [build_learner(s) for s in spec["learners"]]
     vals = [build_evaluator(s) for s in spec["evaluators"]]
     if spec["shape"] == "product":
@@ -387,7 +392,9 @@ def gen_env_group(rng, idx, allow=("linear", "neighbors", "bandit", "tagged", "s
 
 
 def gen_learner(rng, idx):
-    k = weighted(rng, [("random", 2), ("eps", 3), ("ucb", 2), ("counter", 3), ("pmf", 3), ("kwargs", 1), ("corral", 1), ("info", 1.5), ("misguided", 2)])
+    k = weighted(rng, [("random", 2), ("eps", 3), ("ucb", 2), ("counter", 3), ("pmf", 3), ("kwargs", 1), ("corral", 1), ("info", 1.5), ("misguided", 2), ("lowbits", 1.5)])
+    if k == "lowbits":
+        return ["lowbits", {"tag": f"lb{idx}"}]
     if k == "misguided":
         # a wrapper class whose capabilities (score) depend on the wrapped instance
         inner = weighted(rng, [(["eps", {"epsilon": 0.1, "seed": rng.randrange(1, 9)}], 2), (["random", {"seed": rng.randrange(1, 9)}], 1),
@@ -403,12 +410,14 @@ def gen_learner(rng, idx):
     if k == "ucb":
         return ["ucb", {"seed": rng.randrange(1, 9)}]
     if k == "counter":
-        return ["counter", {"k": 1 + rng.randrange(4), "tag": f"c{idx}" + ("\u00e9" if rng.random() < 0.3 else "")}]
+        # (non-ASCII tags end up in params and rows; a lone surrogate is what errors='surrogateescape' gives for an undecodable file name)
+        return ["counter", {"k": 1 + rng.randrange(4), "tag": f"c{idx}" + weighted(rng, [("", 6), ("\u00e9", 3), ("\udc80", 1)])}]
     if k == "pmf":
         return ["pmf", {"tag": f"p{idx}"}]
     if k == "kwargs":
         return ["kwargs", {"tag": f"k{idx}"}]
-    return ["corral", {"learners": [["eps", {"epsilon": 0.1, "seed": 2}], ["random", {"seed": 3}]], "eta": 0.1,
+    base2 = weighted(rng, [(["random", {"seed": 3}], 1), (["pmf", {"tag": f"cp{idx}"}], 1)])
+    return ["corral", {"learners": [["eps", {"epsilon": 0.1, "seed": 2}], base2], "eta": 0.1,
                        "mode": weighted(rng, [("importance", 1), ("off-policy", 1)]), "seed": rng.randrange(1, 9)}]
 
 
@@ -465,6 +474,11 @@ def gen_spec(rng, max_groups=3, small=False, flavours=(("sim", 5), ("logged", 2)
             "quiet": rng.random() < 0.8,
             # non-ASCII text ends up in the transaction log (description, params, tags)
             "description": weighted(rng, [(None, 2), ("sim", 1), ("d\u00e9scr \u65e5\u672c \U0001F600", 1)])}
+    if n_groups > 1 and flavour == "sim" and rng.random() < 0.25:
+        spec["joint_ops"] = [weighted(rng, [(["scale", {"shift": weighted(rng, [("min", 2), ("mean", 1), (0, 1)]), "scale": weighted(rng, [("minmax", 2), ("std", 1), ("maxabs", 1)]),
+                                                      "using": weighted(rng, [(None, 2), (5, 1)])}], 3),
+                                           (["impute", {"stats": ["mean"], "indicator": False, "using": None}], 1),
+                                           (["noise", {"seed": rng.randrange(1, 9)}], 1)])]
     if rng.random() < 0.6:
         spec["shape"] = "product"
         spec["default_evaluator"] = len(spec["evaluators"]) == 1 and spec["evaluators"][0][0] == "seqcb" and rng.random() < 0.2
